@@ -354,6 +354,8 @@ class MasterSim(object):
         self.triggers = []
         capture.activate(self)
         self.master.create_rootns()
+        for callback in self.on_restart:
+            callback(self, 'starting')
         self.master.load_model()
         self._observe_presence()
         if on_phase:
@@ -589,6 +591,12 @@ class MasterSim(object):
     def op_down(self, idx):
         """The node dies: its session expires, the presence node vanishes."""
         name = self._pick_server(idx)
+        loaded = sorted(
+            srv for srv in self.nodes
+            if self.master is not None and srv in self.master.servers and
+            self.master.servers[srv].apps)
+        if loaded and idx % 4:
+            name = loaded[idx % len(loaded)]
         if name is None or name not in self.nodes:
             return
         self.tick()
@@ -891,6 +899,10 @@ class MasterSim(object):
         clock_us = self.clock.us
         try:
             for j in range(len(writes) + 1):
+                if j and writes[j - 1][0] == 'set_acls':
+                    # same data as the previous prefix
+                    self.count('crash_points_acl_only')
+                    continue
                 self.tree.restore(snap)
                 for rec in writes[:j]:
                     self.tree.apply_write(rec)
